@@ -13,43 +13,103 @@ class PathEnd(Exception):
     pass
 
 
-def zcheck(solver, timeout_ms):
-    """solver.check() with a HARD limit: z3 occasionally ignores its own `timeout` parameter (nested to_int, nlsat
-    preprocessing); the check runs in a worker thread (ctypes releases the GIL) and the context is interrupted from here
-    when the grace period is over.  An interrupted check is `unknown`, never a verdict."""
-    import threading
-    solver.set('timeout', int(timeout_ms))
-    box = []
-
-    def run():
-        try:
-            box.append(solver.check())
-        except z3.Z3Exception:
-            box.append(z3.unknown)
-    th = threading.Thread(target=run, daemon=True)
-    th.start()
-    th.join(timeout_ms / 1000.0 + 1.5)
-    if th.is_alive():
-        for _ in range(50):
-            solver.ctx.interrupt()
-            th.join(0.2)
-            if not th.is_alive():
-                break
-        if th.is_alive():
-            # last resort: keep interrupting for a while longer before giving up (exit 3, never a verdict)
-            for _ in range(300):
-                solver.ctx.interrupt()
-                th.join(0.2)
-                if not th.is_alive():
-                    break
-        if th.is_alive():
-            raise EngineError('z3 check could not be interrupted')
-        return z3.unknown
-    return box[0] if box else z3.unknown
-
-
 class VpBreak(Exception):
     pass
+
+
+LAST_MODEL = [None]
+
+
+def _risky(solver):
+    n = 0
+    seen = set()
+    stack = list(solver.assertions())
+    while stack:
+        t = stack.pop()
+        k = t.get_id()
+        if k in seen:
+            continue
+        seen.add(k)
+        n += 1
+        if z3.is_app(t) and t.decl().kind() == z3.Z3_OP_TO_INT:
+            return True
+        if n > 250:
+            return True
+        stack.extend(t.children())
+    return False
+
+
+def zcheck(solver, timeout_ms, want_model=False):
+    """solver.check() with a HARD limit.  z3 occasionally ignores its own `timeout` parameter (nested to_int, large
+    nonlinear hypotheses), and running it in a worker thread corrupts its memory (observed: assertion violation in
+    ast.cpp, segfault).  Small queries run in-process; anything large or containing to_int runs in a forked child that is
+    killed when the grace period is over.  A killed check is `unknown`, never a verdict."""
+    import json as _json, select, signal
+    solver.set('timeout', int(timeout_ms))
+    LAST_MODEL[0] = None
+    if os.environ.get('VERIF_NOFORK') == '1' or not _risky(solver):
+        r = solver.check()
+        if r == z3.sat and want_model:
+            try:
+                m = solver.model()
+                LAST_MODEL[0] = {d.name(): str(m[d]) for d in m.decls() if d.arity() == 0}
+            except z3.Z3Exception:
+                pass
+        return r
+    rd, wr = os.pipe()
+    sys.stdout.flush()
+    sys.stderr.flush()
+    pid = os.fork()
+    if pid == 0:
+        try:
+            os.close(rd)
+            res = solver.check()
+            payload = {'r': str(res)}
+            if res == z3.sat and want_model:
+                try:
+                    m = solver.model()
+                    payload['model'] = {d.name(): str(m[d]) for d in m.decls() if d.arity() == 0}
+                except z3.Z3Exception:
+                    pass
+            data = _json.dumps(payload).encode()
+            off = 0
+            while off < len(data):
+                off += os.write(wr, data[off:off + 32768])
+        except BaseException:
+            pass
+        finally:
+            os._exit(0)
+    os.close(wr)
+    deadline = time.time() + timeout_ms / 1000.0 + 2.0
+    buf = b''
+    done = False
+    while True:
+        left = deadline - time.time()
+        if left <= 0:
+            break
+        ready, _, _ = select.select([rd], [], [], left)
+        if not ready:
+            break
+        chunk = os.read(rd, 65536)
+        if not chunk:
+            done = True
+            break
+        buf += chunk
+    os.close(rd)
+    if not done:
+        try:
+            os.kill(pid, signal.SIGKILL)
+        except ProcessLookupError:
+            pass
+    os.waitpid(pid, 0)
+    if not done or not buf:
+        return z3.unknown
+    try:
+        payload = _json.loads(buf.decode())
+    except ValueError:
+        return z3.unknown
+    LAST_MODEL[0] = payload.get('model')
+    return {'sat': z3.sat, 'unsat': z3.unsat}.get(payload.get('r'), z3.unknown)
 
 
 # --------------------------------------------------------------------------------------------- loader
@@ -608,6 +668,8 @@ class Abstractor:
             if r == z3.unsat:
                 break
         s.qtime += time.time() - t
+        if r != z3.unsat and os.environ.get('VERIF_DEBUG_MISS'):
+            print('MISS: fingerprints agree but no proof (%s): sizes %d %d' % (r, len(subterms([u])), len(subterms([v]))), flush=True)
         return r == z3.unsat
 
     def is_one(s, u):
@@ -804,23 +866,17 @@ def prove(goal, hyps=(), timeout=60000, rounds=2, use_axioms=True, cvc5=True, ex
             A += axioms(list(H) + [goal], rounds=rounds)
         A.append(z3.Not(goal))
         s.add(*A)
-        r = zcheck(s, timeout if final else min(timeout, 4000))
-        last = (r, s, A)
+        r = zcheck(s, timeout if final else min(timeout, 4000), want_model=final)
+        last = (r, s, A, LAST_MODEL[0])
         QLOG.append(dict(stage=stage, result=str(r), ms=round(1000 * (time.time() - t0))))
         if r == z3.unsat:
             return dict(result='discharged', stage=stage, ms=round(1000 * (time.time() - t0)), backend=Z3V)
-    r, s, A = last
+    r, s, A, model = last
     if r == z3.unknown and cvc5:
         r2 = _cvc5_check(A, min(timeout, 30000))
         QLOG.append(dict(stage='cvc5', result=r2, ms=round(1000 * (time.time() - t0))))
         if r2 == 'unsat':
             return dict(result='discharged', stage='cvc5', ms=round(1000 * (time.time() - t0)), backend='cvc5 1.0.3 (after z3 unknown)')
-    model = None
-    if r == z3.sat:
-        try:
-            model = s.model()
-        except Exception:
-            model = None
     return dict(result=str(r), stage=len(stages) - 1, ms=round(1000 * (time.time() - t0)), backend=Z3V, model=model)
 
 
@@ -971,19 +1027,25 @@ def free_symbols(ts):
 
 
 def model_env(model, names):
-    """numeric values of the named real symbols in a z3 model (None if not representable)"""
+    """numeric values of the named real symbols in a solver model (dict name -> printed value); None if unusable"""
+    if not model:
+        return None
     env = {}
     for n in names:
-        v = model.eval(z3.Real(n), model_completion=True)
+        v = model.get(n)
+        if v is None:
+            env[n] = 0.0
+            continue
+        v = v.replace('?', '').strip()
         try:
-            if z3.is_rational_value(v):
-                fr = v.as_fraction()
-                env[n] = float(fr)
-            elif z3.is_algebraic_value(v):
-                env[n] = float(v.approx(20).as_fraction())
-            else:
+            if v.startswith('(') or ' ' in v:
                 return None
-        except Exception:
+            if '/' in v:
+                a, b = v.split('/')
+                env[n] = float(int(a)) / float(int(b)) if len(a) < 300 and len(b) < 300 else float(__import__('fractions').Fraction(int(a), int(b)))
+            else:
+                env[n] = float(v)
+        except (ValueError, OverflowError):
             return None
     return env
 
